@@ -467,7 +467,13 @@ def wl_stores(ctx, rng, i):
         fresh_obj = stix2.v21.Identity(id="identity--" + u[:-2] + "a2", name="fresh object")
         refused = rng.choice([{"type": "identity", "spec_version": "2.1", "id": "identity--" + u, "name": 5, "bogus": 1}, {"type": "identity", "id": "not an id", "name": "n"},
                               {"type": "x-stixmon-kept"}, {}, {"id": "x-stixmon-kept--" + u}, dict(good, id="../../x-escape-%s" % u[-4:]),
-                              dict(good, type="../x-escape", id="x-stixmon-kept--" + u[:-2] + "a3"), "{not json", 5])
+                              dict(good, type="../x-escape", id="x-stixmon-kept--" + u[:-2] + "a3"), "{not json", 5,
+                              # refused only by the version bookkeeping (the stored version of this id is compared with a junk modified) ...
+                              dict(good, modified=[], name="junk modified on a stored id"), dict(good, modified=7, name="junk modified on a stored id"),
+                              # ... an unversioned copy of an id stored with versions ...
+                              {k_: v_ for k_, v_ in good.items() if k_ != "modified"},
+                              # ... and ids no file can be named after
+                              dict(good, id="x-stixmon-kept--\x00" + u[:-2] + "a4"), dict(good, id="x-stixmon-kept--" + "a" * 300)])
         pos = rng.choice(["last", "middle"])
         members = fresh + [fresh_obj]
         lot = members + [refused] if pos == "last" else members[:1] + [refused] + members[1:]
@@ -750,12 +756,77 @@ def wl_toplevel(ctx, rng, i):
                 rname, name, val, [k[-4:] for k in oo["extensions"]]), dict(w, route=rname, output=out))
 
 
+def wl_ref_names(ctx, rng, i):
+    """Custom observables (and a toplevel extension used on an observable) whose property names look like references (*_ref, *_refs,
+    with one or several underscores) but are declared with all sorts of property classes: whether the registration is accepted or
+    refused, nothing but the documented errors ever comes out -- at registration and at every later parse of content carrying the property."""
+    import stix2
+    from stix2 import properties as P
+    ver = ["2.1", "2.0"][i % 2]
+    name = ["linked_ref", "linked_file_ref", "a_b_c_ref", "linked_refs", "linked_file_refs", "a_b_c_refs", "x_refs", "some_ref_thing", "ref", "refs", "my_refs_"][(i // 2) % 11]
+    refp = (lambda: P.ReferenceProperty(valid_types="file", spec_version="2.1")) if ver == "2.1" else (lambda: P.ObjectReferenceProperty(valid_types="file"))
+    pcname, pc = [("StringProperty", P.StringProperty), ("IntegerProperty", P.IntegerProperty), ("ListProperty(String)", lambda: P.ListProperty(P.StringProperty)),
+                  ("reference", refp), ("ListProperty(reference)", lambda: P.ListProperty(refp())), ("DictionaryProperty", lambda: P.DictionaryProperty(spec_version=ver)),
+                  ("BooleanProperty", P.BooleanProperty)][(i // 22) % 7]
+    tname = "x-stixmon-c17-%s-refname-%d" % (ctx.seed, i)
+    how = "observable" if ver == "2.0" or (i // 154) % 2 == 0 else "toplevel-extension"
+    w = {"version": ver, "property": name, "declared_as": pcname, "through": how, "type": tname}
+    reg0 = registry_snapshot()
+    ctx.ev()
+    ctx.count("ref_named_registrations")
+    ctx.nontrivial("ref-name", ver, name, pcname, how)
+    try:
+        with warnings.catch_warnings():
+            warnings.simplefilter("ignore")
+            if how == "observable":
+                dec = (stix2.v20 if ver == "2.0" else stix2.v21).CustomObservable
+                dec(tname, [("label", P.StringProperty()), (name, pc())])(type("RefNamed", (object,), {}))
+            else:
+                ext_id = "extension-definition--" + "%08x" % (i + 1) + "-0a4e-4f0f-9c57-0d7f7a1b2c00"
+                stix2.v21.CustomExtension(ext_id, [(name, pc())])(type("RefNamedExt", (object,), {"extension_type": "toplevel-property-extension"}))
+        accepted = True
+    except family():
+        accepted = False
+        ctx.count("refused")
+        if registry_snapshot() != reg0:
+            ctx.violation("failed-registration-changed-registry", "refused registration of a property named %r left something registered" % name, w)
+    except Exception as e:
+        ctx.violation("escape:%s@%s" % (type(e).__name__, where_raised(e)), "registering a property named %r as %s let %s escape" % (name, pcname, type(e).__name__), dict(w, exception=repr(e)[:300]))
+        return
+    if not accepted:
+        return
+    ctx.count("ref_named_registrations_accepted")
+    for val in ("file--" + "0" * 8 + "-0000-4000-8000-" + "0" * 12, "0", 3, ["0"], [3], {"a": "b"}, True, [["0"]]):
+        if how == "observable" and ver == "2.1":
+            content = {"type": tname, "spec_version": "2.1", "id": tname + "--5b3b0b3c-0a4e-4f0f-9c57-0d7f7a1b2c%02x" % (i % 250), "label": "l", name: val}
+        elif how == "observable":
+            content = {"type": "observed-data", "id": "observed-data--5b3b0b3c-0a4e-4f0f-9c57-0d7f7a1b2c%02x" % (i % 250), "created": "2020-01-01T00:00:00.000Z", "modified": "2020-01-01T00:00:00.000Z",
+                       "first_observed": "2020-01-01T00:00:00Z", "last_observed": "2020-01-01T00:00:00Z", "number_observed": 1,
+                       "objects": {"0": {"type": "file", "name": "f"}, "1": {"type": tname, "label": "l", name: val}}}
+        else:
+            content = {"type": "file", "spec_version": "2.1", "id": "file--5b3b0b3c-0a4e-4f0f-9c57-0d7f7a1b2c%02x" % (i % 250), "name": "f", "extensions": {ext_id: {"extension_type": "toplevel-property-extension"}}, name: val}
+        for strict in (True, False):
+            ctx.ev()
+            try:
+                with warnings.catch_warnings():
+                    warnings.simplefilter("ignore")
+                    stix2.parse(json.loads(json.dumps(content)), allow_custom=not strict, version=ver)
+                ctx.count("ref_named_parses_returned")
+            except family():
+                ctx.count("refused")
+            except Exception as e:
+                ctx.violation("escape:%s@%s" % (type(e).__name__, where_raised(e)), "parsing content with the registered property %r (declared as %s) = %r let %s escape: %s" % (
+                    name, pcname, val, type(e).__name__, str(e)[:100]), dict(w, content=content, strict=strict, exception=repr(e)[:300]))
+                return
+
+
 def prime_ts(text):
     from ..gen import prime
     return bool(prime.TS_RE.match(text))
 
 
 WORKLOADS = [
+    Workload("ref-named-properties", wl_ref_names, quick=308, thorough=1540),
     Workload("toplevel-extensions", wl_toplevel, quick=96, thorough=4800),
     Workload("faults", wl_faults, quick=lambda: len(BASES), thorough=lambda: len(BASES) * 6, exhaustive=True),
     Workload("junk", wl_junk, quick=120, thorough=20000),
